@@ -343,3 +343,95 @@ Proof.
       pose proof (incl_start t start' e) as H. destruct (incl t start' e); try tauto. lia.
     + pose proof (incl_start t start e) as H. destruct (incl t start e); try tauto. lia.
 Qed.
+
+(** ** operators over the line motions j k G gg: whole lines, the cursor's line among them, and the cursor's line is the
+    first or the last of them *)
+Lemma line_start_is_break t : forall x, line_start_from t x = 0%nat \/ is_nl_at t (line_start_from t x - 1) = true.
+Proof.
+  induction x as [|k IH]; [left; reflexivity|]. cbn [line_start_from].
+  destruct (is_nl_at t k) eqn:E; [|exact IH].
+  right. replace (S k - 1)%nat with k by lia. exact E.
+Qed.
+
+Lemma later_line_start t i x : (line_start_from t i < line_start_from t x)%nat -> (i < line_start_from t x)%nat.
+Proof.
+  intros H. destruct (line_start_is_break t x) as [Z|B]; [lia|].
+  destruct (Nat.lt_ge_cases i (line_start_from t x)) as [L|G]; [exact L|].
+  assert (Hn : is_nl_at t (line_start_from t x - 1) = false) by (apply (line_start_no_nl t i); lia).
+  congruence.
+Qed.
+
+Lemma nth_line_end_ge t : forall k p, (p <= length t)%nat -> (p <= nth_line_end t p k <= length t)%nat.
+Proof.
+  induction k as [|k IH]; intros p Hp; cbn [nth_line_end]; pose proof (line_end_bounds t p Hp) as Hb; [exact Hb|].
+  destruct (Nat.ltb_spec (line_end t p) (length t)) as [L|L]; [|exact Hb].
+  pose proof (IH (S (line_end t p)) ltac:(lia)). lia.
+Qed.
+
+Lemma up_lines_le t : forall k p, (up_lines t p k <= line_start_from t p)%nat.
+Proof.
+  induction k as [|k IH]; intros p; cbn [up_lines]; [lia|].
+  destruct (Nat.eqb_spec (line_start_from t p) 0); [lia|].
+  pose proof (IH (line_start_from t p - 1)%nat). pose proof (line_start_le t (line_start_from t p - 1)). lia.
+Qed.
+
+Lemma at_col_le t a col : (at_col t a col <= a + col)%nat.
+Proof. unfold at_col. lia. Qed.
+
+Theorem line_motion_covers_cursor t m count i : (i <= length t)%nat ->
+  match v_range t m count i with
+  | RFail p => p = i
+  | RLines a b _ => (a <= i <= b)%nat /\ (a = i \/ b = i)
+  | _ => False
+  end.
+Proof.
+  intros Hi. pose proof (line_start_le t i) as Hs.
+  assert (Hbetween : forall x,
+    match (if Nat.leb (line_start_from t x) (line_start_from t i)
+           then RLines (at_col t (line_start_from t x) (i - line_start_from t i)) i true
+           else RLines i (line_start_from t x) true) with
+    | RFail p => p = i
+    | RLines a b _ => (a <= i <= b)%nat /\ (a = i \/ b = i)
+    | _ => False
+    end).
+  { intros x. destruct (Nat.leb_spec (line_start_from t x) (line_start_from t i)) as [L|L].
+    - pose proof (at_col_le t (line_start_from t x) (i - line_start_from t i)). split; [lia|right; reflexivity].
+    - pose proof (later_line_start t i x L). split; [lia|left; reflexivity]. }
+  unfold v_range. cbv zeta. destruct m.
+  - destruct (last_line_at t i); [reflexivity|].
+    pose proof (nth_line_end_ge t (match count with Some c => Nat.max c 1 | None => 1 end) i Hi). split; [lia|left; reflexivity].
+  - destruct (Nat.eqb_spec (line_start_from t i) 0) as [Z|Z]; [reflexivity|].
+    pose proof (up_lines_le t (match count with Some c => Nat.max c 1 | None => 1 end) i).
+    pose proof (at_col_le t (up_lines t i (match count with Some c => Nat.max c 1 | None => 1 end)) (i - line_start_from t i)).
+    split; [lia|right; reflexivity].
+  - destruct count as [c|]; [apply (Hbetween (nth_line_end t 0 (Nat.max c 1 - 1)))|apply (Hbetween (length t))].
+  - destruct count as [c|]; [apply (Hbetween (nth_line_end t 0 (Nat.max c 1 - 1)))|].
+    change 0%nat with (line_start_from t 0). apply (Hbetween 0%nat).
+Qed.
+
+(** d over a line motion that does not fail: the text loses whole lines - a span that starts at a line start (or with the
+    break before the last lines) - and nothing else; the register holds them as lines *)
+Theorem delete_line_motion_locality ins t m count i a b kc :
+  v_range t m count i = RLines a b kc ->
+  let '(x, y) := lines_span t a b in
+  o_text (run_op_v OpDelete ins t m count i) = firstn x t ++ skipn y t /\
+  o_reg (run_op_v OpDelete ins t m count i)
+  = Some (true, slice t (line_start_from t (Nat.min a (length t))) (line_end t (Nat.min b (length t))) ++ [nl]).
+Proof.
+  intros H. unfold run_op_v. rewrite H. exact (delete_lines_locality ins (mkO t i None) a b kc).
+Qed.
+
+(** a failing line motion (j on the last line, k on the first) changes nothing *)
+Theorem line_motion_fail_is_noop k ins t m count i p :
+  v_range t m count i = RFail p ->
+  o_text (run_op_v k ins t m count i) = t /\ o_cur (run_op_v k ins t m count i) = i /\ o_reg (run_op_v k ins t m count i) = None.
+Proof.
+  intros H. unfold run_op_v.
+  assert (p = i).
+  { destruct m; unfold v_range in H; cbv zeta in H.
+    - destruct (last_line_at t i); congruence.
+    - destruct (Nat.eqb (line_start_from t i) 0); congruence.
+    - destruct count; destruct (Nat.leb _ _); discriminate.
+    - destruct count; destruct (Nat.leb _ _); discriminate. }
+  subst p. rewrite H. cbn [apply_op o_text o_cur o_reg]. repeat split.
+Qed.
